@@ -6,9 +6,11 @@
 //	identically in lean/ZV/Model/C25.lean, plus record-level T3 oracles.
 //
 // real.go   — T3 with real handshakes for every (version, suite) and wire faults.
+// real_seg.go — T3, unmodified wire over a scripted transport (short / zero-byte reads, data+EOF, deadline mid-record).
 package c25
 
 import (
+	"os"
 	"strings"
 	"time"
 
@@ -16,8 +18,21 @@ import (
 )
 
 func gen(g *zv.Gen) {
+	// development aid only (never set by ./check): run a single stream, e.g. ZV_C25_ONLY=seg zvharness run C25 quick 1 out
+	switch os.Getenv("ZV_C25_ONLY") {
+	case "record":
+		genRecord(g)
+		return
+	case "real":
+		genReal(g)
+		return
+	case "seg":
+		genSeg(g)
+		return
+	}
 	genRecord(g)
 	genReal(g)
+	genSeg(g)
 }
 
 func exec(line string) zv.Out {
@@ -36,5 +51,6 @@ func init() {
 			"decrypt on valid, single-byte-mutated, truncated, extended, wrong-sequence, bad-padding, zero-padded (1.3) and too-short records; maxPayloadSizeForWrite over all branches; " +
 			"writeRecordLocked fragmentation (sizes, wire bytes); readRecordOrCCS length/version checks. A case is one distinct input line. " +
 			"T3: decrypt(encrypt p) = p at the same sequence number, mutated record => error or identical plaintext, extractPadding = naive reference, fragments concatenate to the input and are <= 2^14; " +
-			"real.go (T3 only): real handshakes for every negotiating (version, suite) pair (coverage of a required minimum set is itself checked); bidirectional transfers with random write-size profiles, read buffers and transport segmentation (delivered = written, per-record plaintext <= 2^14, ciphertext within the suite's expansion bound); single and multiple wire faults on protected records (flip, drop, dup, swap, trunc, replay, cut, garbage, zero, setlen, ccs, CBC block substitution): delivered bytes are a prefix of the written ones followed by a sticky error"})
+			"real.go (T3 only): real handshakes for every negotiating (version, suite) pair (coverage of a required minimum set is itself checked); bidirectional transfers with random write-size profiles, read buffers and transport segmentation (delivered = written, per-record plaintext <= 2^14, ciphertext within the suite's expansion bound); single and multiple wire faults on protected records (flip, drop, dup, swap, trunc, replay, cut, garbage, zero, setlen, ccs, CBC block substitution): delivered bytes are a prefix of the written ones followed by a sticky error; " +
+			"real_seg.go (T3 only): UNMODIFIED wire handed to the reader by a scripted transport that uses what io.Reader / net.Conn allow: one cut at every kind of position of the last record / last data record (header bytes 1..4, after the header, inside the body, last byte; thorough: every offset), every record split the same way, byte-by-byte, record-by-record, random sizes, everything in one read, the last bytes together with io.EOF or a separate EOF, close_notify in the same segment as the last data or no close_notify at all, zero-byte reads, a read deadline firing with or without data at any cut (the reader clears it and reads on): delivered = written, then a sticky io.EOF, no stale timeout, one Read per record, no transport read at a record boundary while received plaintext is undelivered; the live xfer transport also reports its end together with the last bytes"})
 }
